@@ -1,5 +1,766 @@
 (* Proofs about Model/Gossip.v (C19). *)
 From AM Require Import Base.Prelude Gen.Consts Model.Nflog Proofs.NflogProofs Model.Gossip.
 
+(* ================= sizes ================= *)
+
 Lemma oversized_len_spec n : oversized_len n = true <-> MaxGossipPacketSize / 2 < n.
 Proof. unfold oversized_len. rewrite Z.ltb_lt. reflexivity. Qed.
+
+Lemma str_length_app s1 s2 : String.length (s1 +:+ s2) = (String.length s1 + String.length s2)%nat.
+Proof. induction s1 as [|a s1 IH]; simpl; [reflexivity|]. f_equal. exact IH. Qed.
+
+Lemma slen_app s1 s2 : slen (s1 +:+ s2) = slen s1 + slen s2.
+Proof. unfold slen. rewrite str_length_app. lia. Qed.
+
+Lemma length_bs l : String.length (bs l) = length l.
+Proof. induction l as [|x l IH]; simpl; [reflexivity|]. f_equal. exact IH. Qed.
+
+Lemma enc_varint_f_len fuel : forall n, Z.of_nat (length (enc_varint_f fuel n)) = varint_len_f fuel n.
+Proof.
+  induction fuel as [|f IH]; intros n; cbn [enc_varint_f varint_len_f]; destruct (n <? 128); try reflexivity.
+  cbn [length]. rewrite Nat2Z.inj_succ, IH. lia.
+Qed.
+
+Lemma enc_field_len tag s : slen (enc_field tag s) = field_size (slen s).
+Proof.
+  unfold enc_field, field_size. destruct (slen s =? 0) eqn:H0; [reflexivity|].
+  rewrite slen_app. unfold slen at 1. rewrite length_bs. cbn [length]. rewrite Nat2Z.inj_succ.
+  unfold enc_varint. rewrite enc_varint_f_len. unfold varint_len. lia.
+Qed.
+
+(* the byte encoder has exactly the size the routing decision uses *)
+Lemma enc_part_len k d : slen (enc_part k d) = part_size (slen k) (slen d).
+Proof. unfold enc_part, part_size. rewrite slen_app, !enc_field_len. reflexivity. Qed.
+
+Lemma varint_len_1 n : 0 <= n < 128 -> varint_len n = 1.
+Proof. intros H. unfold varint_len. cbn. destruct (n <? 128) eqn:E; [reflexivity|lia]. Qed.
+
+Lemma varint_len_2 n : 128 <= n < 16384 -> varint_len n = 2.
+Proof.
+  intros H. unfold varint_len. cbn [varint_len_f]. destruct (n <? 128) eqn:E; [lia|].
+  assert (0 <= n / 128 < 128) by (split; [apply Z.div_pos; lia|apply Z.div_lt_upper_bound; lia]).
+  destruct (n / 128 <? 128) eqn:E2; [reflexivity|lia].
+Qed.
+
+(* a 3-byte key ("sil", "nfl") and a payload of 128..16383 bytes: the wrapped message is 8 bytes longer *)
+Lemma part_size_key3 d : 128 <= d < 16384 -> part_size 3 d = d + 8.
+Proof.
+  intros H. unfold part_size, field_size. rewrite (varint_len_2 d H).
+  destruct (d =? 0) eqn:E; [lia|]. rewrite varint_len_1 by lia. cbn. lia.
+Qed.
+
+(* ================= Channel ================= *)
+Section Chan.
+Context {B W ST : Type}.
+Variable wi : wire B W.
+
+Notation broadcast := (broadcast wi).
+Notation oversized_w := (oversized_w wi).
+
+(* size_routing: the sender is chosen by the encoded size against exactly MaxGossipPacketSize/2 *)
+Lemma broadcast_small c b w :
+  wrap wi (ch_key c) b = Some w -> wlen wi w <= MaxGossipPacketSize / 2 ->
+  broadcast c b = (c, [ESend w]).
+Proof.
+  intros Hw Hl. unfold Gossip.broadcast. rewrite Hw. unfold Gossip.oversized_w, oversized_len.
+  destruct (_ <? wlen wi w) eqn:E; [lia|reflexivity].
+Qed.
+
+Lemma broadcast_oversized c b w :
+  wrap wi (ch_key c) b = Some w -> MaxGossipPacketSize / 2 < wlen wi w ->
+  snd (broadcast c b) = [] /\
+  ((Z.of_nat (length (ch_queue c)) < oversize_queue_cap /\
+    ch_queue (fst (broadcast c b)) = ch_queue c ++ [w] /\ ch_dropped (fst (broadcast c b)) = ch_dropped c)
+   \/
+   (oversize_queue_cap <= Z.of_nat (length (ch_queue c)) /\
+    ch_queue (fst (broadcast c b)) = ch_queue c /\ ch_dropped (fst (broadcast c b)) = ch_dropped c + 1)).
+Proof.
+  intros Hw Hl. unfold Gossip.broadcast. rewrite Hw. unfold Gossip.oversized_w, oversized_len.
+  destruct (_ <? wlen wi w) eqn:E; [|lia].
+  destruct (Z.of_nat (length (ch_queue c)) <? oversize_queue_cap) eqn:Q; cbn; (split; [reflexivity|]).
+  - left. split; [lia|]. split; reflexivity.
+  - right. split; [lia|]. split; reflexivity.
+Qed.
+
+Lemma broadcast_marshal_error c b : wrap wi (ch_key c) b = None -> broadcast c b = (c, []).
+Proof. intros H. unfold Gossip.broadcast. rewrite H. reflexivity. Qed.
+
+(* the worker hands a taken message to sendReliable once for every current peer *)
+Lemma worker_take_all_peers e (c c' : chan W) evs :
+  worker_take e c = Some (c', evs) ->
+  exists w q, ch_queue c = w :: q /\ ch_queue c' = q /\ evs = map (fun p => EReliable p w) (e_peers e) /\
+              ch_sent c' = ch_sent c + Z.of_nat (length (e_peers e)) /\ ch_dropped c' = ch_dropped c.
+Proof.
+  unfold worker_take. destruct (ch_busy c); [discriminate|]. destruct (ch_queue c) as [|w q] eqn:Q; [discriminate|].
+  intros [= <- <-]. exists w, q. cbn. repeat split; reflexivity.
+Qed.
+
+(* ---- all schedules of the channel's atomic actions ---- *)
+Inductive cact := ABcast (b : B) | ATake (e : cenv) | ADone.
+
+Definition cact_step (c : chan W) (a : cact) : chan W * list (cev W) :=
+  match a with
+  | ABcast b => broadcast c b
+  | ATake e => match worker_take e c with Some r => r | None => (c, []) end
+  | ADone => match worker_done c with Some c' => (c', []) | None => (c, []) end
+  end.
+
+Fixpoint cact_run (c : chan W) (l : list cact) : chan W * list (cev W) :=
+  match l with
+  | [] => (c, [])
+  | a :: r => let '(c1, e1) := cact_step c a in let '(c2, e2) := cact_run c1 r in (c2, e1 ++ e2)
+  end.
+
+(* oversized broadcasts offered by an action, and messages taken by the worker *)
+Definition offered_over (c : chan W) (a : cact) : Z :=
+  match a with
+  | ABcast b => match wrap wi (ch_key c) b with Some w => if oversized_w w then 1 else 0 | None => 0 end
+  | _ => 0
+  end.
+Definition taken (c : chan W) (a : cact) : Z :=
+  match a with ATake e => match worker_take e c with Some _ => 1 | None => 0 end | _ => 0 end.
+
+Fixpoint total (f : chan W -> cact -> Z) (c : chan W) (l : list cact) : Z :=
+  match l with [] => 0 | a :: r => f c a + total f (fst (cact_step c a)) r end.
+
+Lemma cact_step_key c a : ch_key (fst (cact_step c a)) = ch_key c.
+Proof.
+  destruct a as [b|e|]; cbn.
+  - unfold Gossip.broadcast. destruct (wrap wi _ b); [|reflexivity].
+    destruct (Gossip.oversized_w _ _); [|reflexivity]. destruct (_ <? _); reflexivity.
+  - unfold worker_take. destruct (ch_busy c); [reflexivity|]. destruct (ch_queue c); reflexivity.
+  - unfold worker_done. destruct (ch_busy c) as [[? ?]|]; reflexivity.
+Qed.
+
+Definition pending (c : chan W) : Z := ch_dropped c + Z.of_nat (length (ch_queue c)).
+
+Lemma cact_step_conserve c a :
+  pending (fst (cact_step c a)) + taken c a = pending c + offered_over c a.
+Proof.
+  unfold pending. destruct a as [b|e|]; cbn [cact_step taken offered_over].
+  - unfold Gossip.broadcast. destruct (wrap wi _ b) as [w|]; [|cbn; lia].
+    destruct (oversized_w w); [|cbn; lia].
+    destruct (_ <? oversize_queue_cap); cbn; rewrite ?app_length; cbn; lia.
+  - destruct (worker_take e c) as [[c' evs]|] eqn:T; [|cbn; lia].
+    apply worker_take_all_peers in T as (w & q & Hq & Hq' & _ & _ & Hd). cbn [fst].
+    rewrite Hq, Hq', Hd. cbn [length]. lia.
+  - unfold worker_done. destruct (ch_busy c) as [[? ?]|]; cbn; lia.
+Qed.
+
+(* OVERSIZE NEVER SILENT: over every schedule of broadcasts and worker steps, every oversized broadcast is
+   accounted for: counted by the dropped counter, still queued, or taken by the worker (which then calls
+   sendReliable for each current peer: worker_take_all_peers). *)
+Theorem chan_conservation l : forall c,
+  total offered_over c l + pending c = pending (fst (cact_run c l)) + total taken c l.
+Proof.
+  induction l as [|a r IH]; intros c; [cbn; lia|].
+  cbn [total cact_run]. pose proof (cact_step_conserve c a) as H.
+  destruct (cact_step c a) as [c1 e1] eqn:E1. cbn [fst] in *.
+  specialize (IH c1). destruct (cact_run c1 r) as [c2 e2]. cbn [fst] in *. lia.
+Qed.
+
+(* the dropped counter moves exactly on a drop *)
+Lemma cact_step_dropped c a :
+  ch_dropped (fst (cact_step c a)) = ch_dropped c \/
+  (ch_dropped (fst (cact_step c a)) = ch_dropped c + 1 /\ offered_over c a = 1 /\
+   oversize_queue_cap <= Z.of_nat (length (ch_queue c)) /\ ch_queue (fst (cact_step c a)) = ch_queue c).
+Proof.
+  destruct a as [b|e|]; cbn [cact_step offered_over].
+  - unfold Gossip.broadcast. destruct (wrap wi _ b) as [w|]; [|left; reflexivity].
+    destruct (oversized_w w); [|left; reflexivity].
+    destruct (_ <? oversize_queue_cap) eqn:Q; cbn; [left; reflexivity|right]. repeat split; lia.
+  - left. unfold worker_take. destruct (ch_busy c); [reflexivity|]. destruct (ch_queue c); reflexivity.
+  - left. unfold worker_done. destruct (ch_busy c) as [[? ?]|]; reflexivity.
+Qed.
+
+(* every message the channel emits (to either sender) or holds is the wrapping of a payload that was broadcast *)
+Definition wrapped_of (key : string) (bs : list B) (w : W) : Prop := exists b, In b bs /\ wrap wi key b = Some w.
+Definition ev_msg (e : cev W) : W := match e with ESend w => w | EReliable _ w => w end.
+
+Definition bcasts (l : list cact) : list B := flat_map (fun a => match a with ABcast b => [b] | _ => [] end) l.
+
+Lemma wrapped_of_mono key bs bs' w : (forall b, In b bs -> In b bs') -> wrapped_of key bs w -> wrapped_of key bs' w.
+Proof. intros H (b & Hb & Hw). exists b. auto. Qed.
+
+Theorem chan_emits_only_wrapped l : forall c bs0,
+  Forall (wrapped_of (ch_key c) bs0) (ch_queue c) ->
+  Forall (fun e => wrapped_of (ch_key c) (bs0 ++ bcasts l) (ev_msg e)) (snd (cact_run c l)) /\
+  Forall (wrapped_of (ch_key c) (bs0 ++ bcasts l)) (ch_queue (fst (cact_run c l))).
+Proof.
+  induction l as [|a r IH]; intros c bs0 HQ.
+  - cbn. rewrite app_nil_r. split; [constructor|exact HQ].
+  - cbn [cact_run]. destruct (cact_step c a) as [c1 e1] eqn:E1.
+    assert (Hk : ch_key c1 = ch_key c) by (rewrite <- (cact_step_key c a), E1; reflexivity).
+    assert (Hstep : Forall (fun e => wrapped_of (ch_key c) (bs0 ++ bcasts [a]) (ev_msg e)) e1 /\
+                    Forall (wrapped_of (ch_key c) (bs0 ++ bcasts [a])) (ch_queue c1)).
+    { destruct a as [b|e|]; cbn [cact_step] in E1.
+      - unfold Gossip.broadcast in E1. cbn [bcasts flat_map]. rewrite app_nil_r.
+        assert (Hmono : forall w, wrapped_of (ch_key c) bs0 w -> wrapped_of (ch_key c) (bs0 ++ [b]) w).
+        { intros w. apply wrapped_of_mono. intros; apply in_or_app; auto. }
+        destruct (wrap wi (ch_key c) b) as [w|] eqn:Hw.
+        + assert (Hwb : wrapped_of (ch_key c) (bs0 ++ [b]) w).
+          { exists b. split; [apply in_or_app; right; left; reflexivity|exact Hw]. }
+          destruct (oversized_w w).
+          * destruct (_ <? oversize_queue_cap); injection E1 as <- <-; cbn; (split; [constructor|]).
+            -- apply Forall_app. split; [eapply Forall_impl; [exact HQ|exact Hmono]|constructor; [exact Hwb|constructor]].
+            -- eapply Forall_impl; [exact HQ|exact Hmono].
+          * injection E1 as <- <-. split; [constructor; [exact Hwb|constructor]|].
+            eapply Forall_impl; [exact HQ|exact Hmono].
+        + injection E1 as <- <-. split; [constructor|]. eapply Forall_impl; [exact HQ|exact Hmono].
+      - cbn [bcasts flat_map]. rewrite app_nil_r. unfold worker_take in E1.
+        destruct (ch_busy c).
+        + injection E1 as <- <-. split; [constructor|exact HQ].
+        + destruct (ch_queue c) as [|w q] eqn:Q.
+          * injection E1 as <- <-. split; [constructor|]. rewrite Q. constructor.
+          * injection E1 as <- <-. cbn. apply Forall_cons in HQ as [Hw Hq]. split; [|exact Hq].
+            apply Forall_forall. intros ev Hev. apply elem_of_list_In, in_map_iff in Hev as (p & <- & _). exact Hw.
+      - cbn [bcasts flat_map]. rewrite app_nil_r. unfold worker_done in E1.
+        destruct (ch_busy c) as [[? ?]|]; injection E1 as <- <-; (split; [constructor|exact HQ]). }
+    destruct Hstep as [He1 Hq1].
+    specialize (IH c1 (bs0 ++ bcasts [a])). rewrite Hk in IH. specialize (IH Hq1).
+    destruct (cact_run c1 r) as [c2 e2]. cbn [fst snd] in *.
+    assert (Heq : (bs0 ++ bcasts [a]) ++ bcasts r = bs0 ++ bcasts (a :: r)).
+    { rewrite <- app_assoc. f_equal. unfold bcasts. cbn [flat_map]. rewrite app_nil_r. reflexivity. }
+    rewrite Heq in IH. destruct IH as [IHe IHq]. split; [|exact IHq].
+    apply Forall_app. split; [|exact IHe].
+    eapply Forall_impl; [exact He1|]. intros ev. apply wrapped_of_mono.
+    intros b Hb. rewrite <- Heq. apply in_or_app. left. exact Hb.
+Qed.
+
+(* the quiescent steps used by the correspondence (settle = run the worker until it blocks) are schedules of the
+   atomic actions above, so the two theorems cover them *)
+Lemma settle_is_schedule fuel e : forall c, exists l, settle fuel e c = cact_run c l.
+Proof.
+  induction fuel as [|f IH]; intros c; [exists []; reflexivity|].
+  cbn [settle]. destruct (ch_busy c) as [[n nf]|] eqn:Bz.
+  - destruct (e_gate e || (n =? 0)); [|exists []; reflexivity].
+    destruct (worker_done c) as [c'|] eqn:D; [|exists []; reflexivity].
+    destruct (IH c') as [l Hl]. exists (ADone :: l). cbn [cact_run cact_step]. rewrite D, Hl.
+    destruct (cact_run c' l). reflexivity.
+  - destruct (worker_take e c) as [[c' evs]|] eqn:T; [|exists []; reflexivity].
+    destruct (IH c') as [l Hl]. exists (ATake e :: l). cbn [cact_run cact_step]. rewrite T, Hl.
+    destruct (cact_run c' l). reflexivity.
+Qed.
+
+End Chan.
+
+(* ================= delegate ================= *)
+Section Deleg.
+Context {B W ST : Type}.
+Variable wi : wire B W.
+Variable ops : stateops B ST.
+
+Notation peer := (gmap string ST).
+Notation merge_part := (merge_part ops).
+Notation merge_parts := (merge_parts ops).
+Notation notify_msg := (notify_msg wi ops).
+Notation merge_remote_state := (merge_remote_state wi ops).
+Notation local_parts := (local_parts ops).
+Notation local_state := (local_state wi ops).
+Notation deliver := (deliver wi ops).
+Notation run_deliveries := (run_deliveries wi ops).
+
+(* ---- facts that need no contract at all ---- *)
+
+(* DELIVERED UPDATE IS MERGED (given the protobuf round trip): NotifyMsg of the wrapped payload is exactly
+   State.Merge of the payload on the state registered under that key — whatever the size *)
+Lemma notify_wrapped (part_rt : forall k b w, wrap wi k b = Some w -> dec_part wi w = Some (k, b))
+      now k b w (p : peer) :
+  wrap wi k b = Some w -> notify_msg now w p = merge_part now k b p.
+Proof. intros Hw. unfold Gossip.notify_msg. rewrite (part_rt _ _ _ Hw). reflexivity. Qed.
+
+Lemma merge_part_known now k b (p : peer) s :
+  p !! k = Some s ->
+  merge_part now k b p =
+  match mergeS ops now b s with Ok s' => Ok (<[k := s']> p) | Err _ => Ok p | Panic => Panic end.
+Proof. intros H. unfold Gossip.merge_part. rewrite H. reflexivity. Qed.
+
+(* UNKNOWN KEY IGNORED *)
+Lemma merge_part_unknown now k b (p : peer) : p !! k = None -> merge_part now k b p = Ok p.
+Proof. intros H. unfold Gossip.merge_part. rewrite H. reflexivity. Qed.
+
+(* MALFORMED: NO CHANGE *)
+Lemma notify_undecodable now w (p : peer) : dec_part wi w = None -> notify_msg now w p = Ok p.
+Proof. intros H. unfold Gossip.notify_msg. rewrite H. reflexivity. Qed.
+
+Lemma merge_remote_undecodable now w (p : peer) : dec_full wi w = None -> merge_remote_state now w p = Ok p.
+Proof. intros H. unfold Gossip.merge_remote_state. rewrite H. reflexivity. Qed.
+
+Lemma merge_part_error now k b (p : peer) s c :
+  p !! k = Some s -> mergeS ops now b s = Err c -> merge_part now k b p = Ok p.
+Proof. intros H E. rewrite (merge_part_known _ _ _ _ _ H), E. reflexivity. Qed.
+
+Lemma merge_parts_app now l1 : forall l2 (p : peer),
+  merge_parts now (l1 ++ l2) p =
+  match merge_parts now l1 p with Ok p1 => merge_parts now l2 p1 | Err c => Err c | Panic => Panic end.
+Proof.
+  induction l1 as [|[k b] l1 IH]; intros l2 p; [reflexivity|].
+  cbn [app Gossip.merge_parts]. destruct (merge_part now k b p); [apply IH|reflexivity|reflexivity].
+Qed.
+
+(* MALFORMED NEVER BLOCKS: a part that is not understood (unknown key) or that fails to merge behaves exactly as
+   if it were absent from the full-state message — the parts before AND after it are applied all the same. *)
+Theorem failing_part_is_skipped now pre k x post (p p1 : peer) :
+  merge_parts now pre p = Ok p1 ->
+  (p1 !! k = None \/ exists s c, p1 !! k = Some s /\ mergeS ops now x s = Err c) ->
+  merge_parts now (pre ++ (k, x) :: post) p = merge_parts now (pre ++ post) p.
+Proof.
+  intros Hpre Hbad. rewrite !merge_parts_app, Hpre. cbn [Gossip.merge_parts].
+  destruct Hbad as [Hn|(s & c & Hs & He)].
+  - rewrite (merge_part_unknown _ _ _ _ Hn). reflexivity.
+  - rewrite (merge_part_error _ _ _ _ _ _ Hs He). reflexivity.
+Qed.
+
+(* ---- contract of the registered states ---- *)
+Variable inv : ST -> Prop.                 (* representation invariant of a state *)
+Variable ge : ST -> ST -> Prop.            (* s' holds, for everything s holds, something at least as new *)
+Variable live : Z -> ST -> ST.             (* the part of a state that has not expired at an instant *)
+Variable is_marshal : ST -> B -> Prop.     (* x is a possible output of s.MarshalBinary() (any Go map order) *)
+
+Hypothesis ge_refl : forall s, ge s s.
+Hypothesis ge_trans : forall a b c, ge a b -> ge b c -> ge a c.
+Hypothesis merge_nopanic : forall now x s, mergeS ops now x s <> Panic.
+Hypothesis merge_grow : forall now x s s', mergeS ops now x s = Ok s' -> ge s' s.
+Hypothesis merge_inv : forall now x s s', mergeS ops now x s = Ok s' -> inv s -> inv s'.
+Hypothesis merge_marshal : forall now a b x,
+  inv a -> inv b -> is_marshal a x -> exists b', mergeS ops now x b = Ok b' /\ ge b' (live now a).
+Hypothesis marshal_is : forall s x, marshalS ops s = Some x -> is_marshal s x.
+Hypothesis merge_err_stable : forall now now' x s s' c, mergeS ops now x s = Err c -> exists c', mergeS ops now' x s' = Err c'.
+Hypothesis merge_absorbed : forall now now' x s s' s'',
+  now <= now' -> mergeS ops now x s = Ok s' -> ge s'' s' -> mergeS ops now' x s'' = Ok s''.
+
+(* p' is p with every registered state grown (never backwards), nothing registered or unregistered *)
+Definition pge (p' p : peer) : Prop :=
+  forall k, match p !! k with
+            | None => p' !! k = None
+            | Some s => exists s', p' !! k = Some s' /\ ge s' s /\ (inv s -> inv s')
+            end.
+
+Lemma pge_refl p : pge p p.
+Proof. intros k. destruct (p !! k) as [s|] eqn:E; [|reflexivity]. exists s. split; [reflexivity|]. split; [apply ge_refl|auto]. Qed.
+
+Lemma pge_trans p3 p2 p1 : pge p3 p2 -> pge p2 p1 -> pge p3 p1.
+Proof.
+  intros H32 H21 k. specialize (H32 k). specialize (H21 k).
+  destruct (p1 !! k) as [s1|].
+  - destruct H21 as (s2 & E2 & G2 & I2). rewrite E2 in H32. destruct H32 as (s3 & E3 & G3 & I3).
+    exists s3. split; [exact E3|]. split; [eapply ge_trans; eauto|auto].
+  - rewrite H21 in H32. exact H32.
+Qed.
+
+Lemma merge_part_total now k x (p : peer) : exists p', merge_part now k x p = Ok p' /\ pge p' p.
+Proof.
+  unfold Gossip.merge_part. destruct (p !! k) as [s|] eqn:E; [|exists p; split; [reflexivity|apply pge_refl]].
+  destruct (mergeS ops now x s) as [s'|c|] eqn:M.
+  - exists (<[k := s']> p). split; [reflexivity|]. intros k'. destruct (decide (k' = k)) as [->|Hn].
+    + rewrite E. exists s'. rewrite lookup_insert. split; [reflexivity|]. split; [eapply merge_grow; eauto|eapply merge_inv; eauto].
+    + rewrite lookup_insert_ne by congruence. destruct (p !! k') as [s0|]; [|reflexivity].
+      exists s0. split; [reflexivity|]. split; [apply ge_refl|auto].
+  - exists p. split; [reflexivity|apply pge_refl].
+  - exfalso. eapply merge_nopanic; eauto.
+Qed.
+
+Lemma merge_parts_total now parts : forall (p : peer), exists p', merge_parts now parts p = Ok p' /\ pge p' p.
+Proof.
+  induction parts as [|[k x] r IH]; intros p; [exists p; split; [reflexivity|apply pge_refl]|].
+  cbn [Gossip.merge_parts]. destruct (merge_part_total now k x p) as (p1 & E1 & G1). rewrite E1.
+  destruct (IH p1) as (p2 & E2 & G2). exists p2. split; [exact E2|eapply pge_trans; eauto].
+Qed.
+
+(* NEVER CORRUPTS: whatever bytes arrive on either path, the peer's registered states only grow *)
+Lemma deliver_total now d (p : peer) : exists p', deliver now d p = Ok p' /\ pge p' p.
+Proof.
+  destruct d as [w|w]; cbn [Gossip.deliver].
+  - unfold Gossip.notify_msg. destruct (dec_part wi w) as [[k x]|]; [apply merge_part_total|].
+    exists p. split; [reflexivity|apply pge_refl].
+  - unfold Gossip.merge_remote_state. destruct (dec_full wi w) as [parts|]; [apply merge_parts_total|].
+    exists p. split; [reflexivity|apply pge_refl].
+Qed.
+
+Lemma run_deliveries_total sched : forall (p : peer), exists p', run_deliveries sched p = Ok p' /\ pge p' p.
+Proof.
+  induction sched as [|[now d] r IH]; intros p; [exists p; split; [reflexivity|apply pge_refl]|].
+  cbn [Gossip.run_deliveries]. destruct (deliver_total now d p) as (p1 & E1 & G1). rewrite E1.
+  destruct (IH p1) as (p2 & E2 & G2). exists p2. split; [exact E2|eapply pge_trans; eauto].
+Qed.
+
+(* a marshalled state that is a part of a full-state message is merged, wherever it stands in the message and
+   whatever the other parts are (unknown keys, garbage, failing parts, duplicates) *)
+Theorem full_state_part_merged now parts k x a b (p : peer) :
+  In (k, x) parts -> is_marshal a x -> inv a -> p !! k = Some b -> inv b ->
+  exists p' b', merge_parts now parts p = Ok p' /\ pge p' p /\
+                p' !! k = Some b' /\ ge b' (live now a) /\ ge b' b /\ inv b'.
+Proof.
+  intros Hin Hm Ia Hb Ib. apply in_split in Hin as (pre & post & ->).
+  destruct (merge_parts_total now pre p) as (p1 & E1 & G1).
+  pose proof (G1 k) as Gk. rewrite Hb in Gk. destruct Gk as (b1 & Hb1 & Gb1 & Ib1).
+  destruct (merge_marshal now a b1 x Ia (Ib1 Ib) Hm) as (b2 & M2 & C2).
+  assert (E2 : merge_part now k x p1 = Ok (<[k := b2]> p1)).
+  { rewrite (merge_part_known _ _ _ _ _ Hb1), M2. reflexivity. }
+  destruct (merge_part_total now k x p1) as (p2' & E2' & G2). rewrite E2 in E2'. injection E2' as <-.
+  destruct (merge_parts_total now post (<[k := b2]> p1)) as (p3 & E3 & G3).
+  pose proof (G3 k) as Gk3. rewrite lookup_insert in Gk3. destruct Gk3 as (b3 & Hb3 & Gb3 & Ib3).
+  exists p3, b3. split.
+  - rewrite merge_parts_app, E1. cbn [Gossip.merge_parts]. rewrite E2. exact E3.
+  - split; [eapply pge_trans; [exact G3|eapply pge_trans; [exact G2|exact G1]]|].
+    split; [exact Hb3|]. split; [eapply ge_trans; [exact Gb3|exact C2]|].
+    split.
+    + eapply ge_trans; [exact Gb3|]. eapply ge_trans; [|exact Gb1]. eapply merge_grow; exact M2.
+    + apply Ib3. eapply merge_inv; [exact M2|auto].
+Qed.
+
+Lemma local_parts_spec order : forall (A : peer) ps k a,
+  local_parts order A = Some ps -> In k order -> A !! k = Some a ->
+  exists x, In (k, x) ps /\ marshalS ops a = Some x.
+Proof.
+  induction order as [|k0 r IH]; intros A ps k a Hl Hin Ha; [destruct Hin|].
+  cbn [Gossip.local_parts] in Hl. destruct (A !! k0) as [s0|] eqn:E0; [|discriminate].
+  destruct (marshalS ops s0) as [x0|] eqn:M0; [|discriminate].
+  destruct (local_parts r A) as [ps'|] eqn:R; [|discriminate]. injection Hl as <-.
+  destruct Hin as [->|Hin].
+  - rewrite E0 in Ha. injection Ha as <-. exists x0. split; [left; reflexivity|exact M0].
+  - destruct (IH A ps' k a R Hin Ha) as (x & Hx & Mx). exists x. split; [right; exact Hx|exact Mx].
+Qed.
+
+(* FULL STATE COMPLETE: B merges A's LocalState (any Go map order of the parts, any order inside each marshalled
+   state): afterwards every state registered at both holds something at least as new as every unexpired item of A's,
+   and nothing B had went backwards. *)
+Theorem full_state_complete
+        (full_rt : forall ps w, wrap_full wi ps = Some w -> dec_full wi w = Some ps)
+        now order (A P : peer) w :
+  local_state order A = Some w ->
+  (forall k s, A !! k = Some s -> inv s) -> (forall k s, P !! k = Some s -> inv s) ->
+  exists P', merge_remote_state now w P = Ok P' /\ pge P' P /\
+             forall k a b, In k order -> A !! k = Some a -> P !! k = Some b ->
+                           exists b', P' !! k = Some b' /\ ge b' (live now a) /\ ge b' b.
+Proof.
+  intros Hls IA IP. unfold Gossip.local_state in Hls. destruct (local_parts order A) as [ps|] eqn:Hps; [|discriminate].
+  unfold Gossip.merge_remote_state. rewrite (full_rt _ _ Hls).
+  destruct (merge_parts_total now ps P) as (P' & E & G). exists P'. split; [exact E|]. split; [exact G|].
+  intros k a b Hin Ha Hb. destruct (local_parts_spec _ _ _ _ _ Hps Hin Ha) as (x & Hx & Mx).
+  destruct (full_state_part_merged now ps k x a b P Hx (marshal_is _ _ Mx) (IA _ _ Ha) Hb (IP _ _ Hb))
+    as (P'' & b' & E' & _ & Hb' & C & Gb & _).
+  rewrite E in E'. injection E' as <-. exists b'. auto.
+Qed.
+
+(* DUPLICATES ARE IDEMPOTENT (clock not running backwards) *)
+Theorem notify_duplicate_idempotent now now' k x (p p' : peer) :
+  now <= now' -> merge_part now k x p = Ok p' -> merge_part now' k x p' = Ok p'.
+Proof.
+  intros Hle. unfold Gossip.merge_part. destruct (p !! k) as [s|] eqn:E.
+  - destruct (mergeS ops now x s) as [s'|c|] eqn:M; intros [= <-].
+    + rewrite lookup_insert. rewrite (merge_absorbed now now' x s s' s' Hle M (ge_refl _)).
+      rewrite insert_insert. reflexivity.
+    + rewrite E. destruct (merge_err_stable now now' x s s c M) as (c' & ->). reflexivity.
+  - intros [= <-]. rewrite E. reflexivity.
+Qed.
+
+(* every part of a message has been absorbed by the state its key holds after the whole message was applied *)
+Definition absorbed_in now (p' : peer) (kx : string * B) : Prop :=
+  p' !! fst kx = None \/
+  (exists s c, mergeS ops now (snd kx) s = Err c) \/
+  (exists s s' sf, mergeS ops now (snd kx) s = Ok s' /\ p' !! fst kx = Some sf /\ ge sf s').
+
+Lemma absorbed_mono now (p'' p' : peer) kx : pge p'' p' -> absorbed_in now p' kx -> absorbed_in now p'' kx.
+Proof.
+  intros G [Hn|[He|(s & s' & sf & M & Hs & Gs)]].
+  - left. specialize (G (fst kx)). rewrite Hn in G. exact G.
+  - right. left. exact He.
+  - right. right. specialize (G (fst kx)). rewrite Hs in G. destruct G as (sf' & Hs' & Gs' & _).
+    exists s, s', sf'. split; [exact M|]. split; [exact Hs'|eapply ge_trans; eauto].
+Qed.
+
+Lemma merge_parts_absorbs now parts : forall (p p' : peer),
+  merge_parts now parts p = Ok p' -> Forall (absorbed_in now p') parts.
+Proof.
+  induction parts as [|[k x] r IH]; intros p p' H; [constructor|].
+  cbn [Gossip.merge_parts] in H. destruct (merge_part_total now k x p) as (p1 & E1 & G1). rewrite E1 in H.
+  constructor; [|eapply IH; exact H].
+  destruct (merge_parts_total now r p1) as (p2 & E2 & G2). rewrite H in E2. injection E2 as <-.
+  apply (absorbed_mono now p' p1); [exact G2|].
+  unfold Gossip.merge_part in E1. unfold absorbed_in. cbn [fst snd].
+  destruct (p !! k) as [s|] eqn:E.
+  - destruct (mergeS ops now x s) as [s'|c|] eqn:M.
+    + injection E1 as <-. right. right. exists s, s', s'. rewrite lookup_insert. split; [exact M|]. split; [reflexivity|apply ge_refl].
+    + right. left. eauto.
+    + discriminate.
+  - injection E1 as <-. left. exact E.
+Qed.
+
+Lemma merge_parts_noop now now' parts : forall (p' : peer),
+  now <= now' -> Forall (absorbed_in now p') parts -> merge_parts now' parts p' = Ok p'.
+Proof.
+  intros p' Hle H. induction H as [|[k x] r Hk _ IH]; [reflexivity|].
+  cbn [Gossip.merge_parts]. assert (E : merge_part now' k x p' = Ok p'); [|rewrite E; exact IH].
+  unfold Gossip.merge_part. destruct Hk as [Hn|[(s & c & He)|(s & s' & sf & M & Hs & Gs)]]; cbn [fst snd] in *.
+  - rewrite Hn. reflexivity.
+  - destruct (p' !! k) as [s0|]; [|reflexivity].
+    destruct (merge_err_stable now now' x s s0 c He) as (c' & ->). reflexivity.
+  - rewrite Hs, (merge_absorbed now now' x s s' sf Hle M Gs). rewrite insert_id by exact Hs. reflexivity.
+Qed.
+
+Theorem full_state_duplicate_idempotent now now' w (p p' : peer) :
+  now <= now' -> merge_remote_state now w p = Ok p' -> merge_remote_state now' w p' = Ok p'.
+Proof.
+  intros Hle. unfold Gossip.merge_remote_state. destruct (dec_full wi w) as [parts|]; [|intros [= <-]; reflexivity].
+  intros H. apply (merge_parts_noop now now'); [exact Hle|]. eapply merge_parts_absorbs; exact H.
+Qed.
+
+(* EVENTUAL DELIVERY. memberlist's contract (assumed, not alertmanager's code): to a peer that stays connected it
+   eventually delivers either the gossip / reliable packet carrying the update, or a later push-pull full state
+   of a peer whose state still holds (unexpired) something at least as new as the update. Every broadcast payload
+   is itself a marshalled (one-item) state u. Then, whatever else is delivered before and after — in any order,
+   duplicated, unknown, malformed — the receiver ends up holding something at least as new as every item of the
+   update that was unexpired when it arrived. *)
+Definition carries now (d : delivery W) (k : string) (u : ST) : Prop :=
+  match d with
+  | DPacket w => exists x, dec_part wi w = Some (k, x) /\ is_marshal u x
+  | DFull w => exists parts x a, dec_full wi w = Some parts /\ In (k, x) parts /\ is_marshal a x /\ inv a /\
+                                 ge (live now a) (live now u)
+  end.
+
+Theorem eventual_delivery sched1 now d sched2 k u b (p : peer) :
+  p !! k = Some b -> inv b -> inv u -> carries now d k u ->
+  exists p' b', run_deliveries (sched1 ++ (now, d) :: sched2) p = Ok p' /\ pge p' p /\
+                p' !! k = Some b' /\ ge b' (live now u) /\ ge b' b.
+Proof.
+  intros Hb Ib Iu Hc.
+  destruct (run_deliveries_total sched1 p) as (p1 & E1 & G1).
+  pose proof (G1 k) as Gk. rewrite Hb in Gk. destruct Gk as (b1 & Hb1 & Gb1 & Ib1).
+  assert (Hd : exists p2 b2, deliver now d p1 = Ok p2 /\ pge p2 p1 /\ p2 !! k = Some b2 /\ ge b2 (live now u) /\ ge b2 b1).
+  { destruct d as [w|w]; cbn [carries Gossip.deliver] in *.
+    - destruct Hc as (x & Hdec & Hm). unfold Gossip.notify_msg. rewrite Hdec.
+      destruct (merge_marshal now u b1 x Iu (Ib1 Ib) Hm) as (b2 & M & C).
+      destruct (merge_part_total now k x p1) as (p2 & E2 & G2).
+      exists p2, b2. split; [exact E2|]. split; [exact G2|].
+      rewrite (merge_part_known _ _ _ _ _ Hb1), M in E2. injection E2 as <-. rewrite lookup_insert.
+      split; [reflexivity|]. split; [exact C|eapply merge_grow; exact M].
+    - destruct Hc as (parts & x & a & Hdec & Hin & Hm & Ia & Hau). unfold Gossip.merge_remote_state. rewrite Hdec.
+      destruct (full_state_part_merged now parts k x a b1 p1 Hin Hm Ia Hb1 (Ib1 Ib)) as (p2 & b2 & E2 & G2 & Hb2 & C & Gb & _).
+      exists p2, b2. split; [exact E2|]. split; [exact G2|]. split; [exact Hb2|]. split; [|exact Gb].
+      eapply ge_trans; [exact C|exact Hau]. }
+  destruct Hd as (p2 & b2 & E2 & G2 & Hb2 & C2 & Gb2).
+  destruct (run_deliveries_total sched2 p2) as (p3 & E3 & G3).
+  pose proof (G3 k) as Gk3. rewrite Hb2 in Gk3. destruct Gk3 as (b3 & Hb3 & Gb3 & _).
+  exists p3, b3. split.
+  - clear -E1 E2 E3. revert p E1. induction sched1 as [|[t0 d0] r IH]; intros p E1.
+    + cbn in E1. injection E1 as <-. cbn [app Gossip.run_deliveries]. rewrite E2. exact E3.
+    + cbn [app Gossip.run_deliveries] in *. destruct (deliver t0 d0 p); [apply IH; exact E1|discriminate|discriminate].
+  - split; [eapply pge_trans; [exact G3|eapply pge_trans; [exact G2|exact G1]]|].
+    split; [exact Hb3|]. split; [eapply ge_trans; [exact Gb3|exact C2]|].
+    eapply ge_trans; [exact Gb3|]. eapply ge_trans; [exact Gb2|exact Gb1].
+Qed.
+
+End Deleg.
+
+(* ================= the notification log as a registered state ================= *)
+(* payload = the batch nflog.decodeState reads from the bytes (None = a record without Entry/Receiver or an
+   undecodable tail: the whole batch is refused); state = Model/Nflog.v *)
+
+Notation nst := (gmap string entry).
+
+Definition nfl_entries (m : nst) : list entry := map snd (map_to_list m).
+
+Definition nfl_mergeS (now : Z) (x : list (option entry)) (s : nst) : res nst :=
+  match decode_batch x ∅ with
+  | None => Err "invalid"
+  | Some m => Ok (mrun s (map (fun e => (now, e)) (nfl_entries m)))
+  end.
+Definition nfl_marshalS (s : nst) : option (list (option entry)) := Some (map Some (nfl_entries s)).
+Definition nfl_ops : stateops (list (option entry)) nst := mkOps _ _ nfl_mergeS nfl_marshalS.
+
+Definition nfl_inv (s : nst) : Prop := forall k e, s !! k = Some e -> skey e = k.
+Definition nfl_ge (s' s : nst) : Prop := forall k e, s !! k = Some e -> exists e', s' !! k = Some e' /\ e_ts e <= e_ts e'.
+Definition nfl_live (now : Z) (s : nst) : nst := filter (fun kv => now <= e_exp (snd kv)) s.
+Definition nfl_is_marshal (s : nst) (x : list (option entry)) : Prop :=
+  exists es, x = map Some es /\ Permutation es (nfl_entries s).
+
+(* nfl_mergeS is the state transition of Log.Merge in Model/Nflog.v *)
+Lemma nfl_merge_is_step ret s now x blen :
+  match nfl_mergeS now x s with
+  | Ok s' => step ret s now (OMerge x blen) = (s', snd (step ret s now (OMerge x blen))) /\
+             snd (step ret s now (OMerge x blen)) <> RMergeErr
+  | _ => step ret s now (OMerge x blen) = (s, RMergeErr)
+  end.
+Proof.
+  unfold nfl_mergeS. cbn [step]. destruct (decode_batch x ∅) as [m|]; [|reflexivity].
+  pose proof (merge_list_fst now s (map snd (map_to_list m))) as H.
+  destruct (merge_list now s (map snd (map_to_list m))) as [s' n]. cbn [fst snd] in *. subst s'.
+  split; [reflexivity|discriminate].
+Qed.
+
+Lemma mrun_cons s now e ds : mrun s ((now, e) :: ds) = mrun (fst (merge1 now s e)) ds.
+Proof. reflexivity. Qed.
+
+Lemma mrun_covers now es : forall s e,
+  In e es -> now <= e_exp e ->
+  exists p, mrun s (map (fun e => (now, e)) es) !! skey e = Some p /\ e_ts e <= e_ts p.
+Proof.
+  induction es as [|a es IH]; intros s e Hin Hlive; [destruct Hin|].
+  cbn [map]. rewrite mrun_cons. destruct Hin as [->|Hin]; [|apply IH; assumption].
+  assert (H1 : exists p1, fst (merge1 now s e) !! skey e = Some p1 /\ e_ts e <= e_ts p1).
+  { rewrite merge1_lookup. destruct (decide _) as [_|]; [|congruence]. unfold lww.
+    destruct (e_exp e <? now) eqn:X; [lia|].
+    destruct (s !! skey e) as [p|]; [destruct (e_ts p <? e_ts e) eqn:T|]; eexists; (split; [reflexivity|lia]). }
+  destruct H1 as (p1 & Hp1 & Hle).
+  destruct (mrun_monotone (map (fun e => (now, e)) es) _ _ _ Hp1) as (p' & Hp' & Hle' & _).
+  exists p'. split; [exact Hp'|lia].
+Qed.
+
+Lemma mrun_noop now es : forall s,
+  (forall e, In e es -> e_exp e < now \/ exists p, s !! skey e = Some p /\ e_ts e <= e_ts p) ->
+  mrun s (map (fun e => (now, e)) es) = s.
+Proof.
+  induction es as [|a es IH]; intros s H; [reflexivity|].
+  cbn [map]. rewrite mrun_cons.
+  assert (E : merge1 now s a = (s, false)).
+  { destruct (H a (or_introl eq_refl)) as [Hx|(p & Hp & Hle)]; [apply merge1_expired; exact Hx|].
+    unfold merge1. destruct (e_exp a <? now); [reflexivity|]. rewrite Hp.
+    destruct (e_ts p <? e_ts a) eqn:T; [lia|reflexivity]. }
+  rewrite E. cbn [fst]. apply IH. intros e He. apply H. right. exact He.
+Qed.
+
+Lemma mrun_inv ds : forall s, nfl_inv s -> nfl_inv (mrun s ds).
+Proof.
+  induction ds as [|[now e] ds IH]; intros s Hs; [exact Hs|].
+  rewrite mrun_cons. apply IH. intros k p. rewrite merge1_lookup.
+  destruct (decide (k = skey e)) as [->|Hn]; [|apply Hs].
+  intros H. apply lww_some_or in H as [H|[-> _]]; [apply Hs; exact H|reflexivity].
+Qed.
+
+Lemma mrun_ge ds s : nfl_ge (mrun s ds) s.
+Proof. intros k e He. destruct (mrun_monotone ds s k e He) as (p' & Hp' & Hle & _). eauto. Qed.
+
+Definition ins (m : nst) (e : entry) : nst := <[skey e := e]> m.
+
+Lemma decode_batch_somes es : forall acc, decode_batch (map Some es) acc = Some (foldl ins acc es).
+Proof. induction es as [|e es IH]; intros acc; [reflexivity|]. cbn. apply IH. Qed.
+
+Lemma foldl_ins_spec es : forall acc k,
+  (foldl ins acc es !! k = acc !! k /\ forall e, In e es -> skey e <> k) \/
+  (exists e, In e es /\ skey e = k /\ foldl ins acc es !! k = Some e).
+Proof.
+  induction es as [|a es IH]; intros acc k; [left; split; [reflexivity|intros e []]|].
+  cbn [foldl]. destruct (IH (ins acc a) k) as [[Hl Hn]|(e & He & Hk & Hl)].
+  - destruct (decide (skey a = k)) as [Ha|Ha].
+    + right. exists a. split; [left; reflexivity|]. split; [exact Ha|]. rewrite Hl. unfold ins. rewrite <- Ha. apply lookup_insert.
+    + left. split; [rewrite Hl; unfold ins; apply lookup_insert_ne; exact Ha|].
+      intros e [<-|He]; [exact Ha|apply Hn; exact He].
+  - right. exists e. split; [right; exact He|]. split; [exact Hk|exact Hl].
+Qed.
+
+Lemma in_nfl_entries (s : nst) e : In e (nfl_entries s) <-> exists k, s !! k = Some e.
+Proof.
+  unfold nfl_entries. rewrite in_map_iff. split.
+  - intros ([k e'] & <- & Hin). exists k. apply elem_of_map_to_list, elem_of_list_In. exact Hin.
+  - intros (k & Hk). exists (k, e). split; [reflexivity|]. apply elem_of_list_In, elem_of_map_to_list. exact Hk.
+Qed.
+
+(* a marshalled state decodes, and the decoded batch contains every entry of the state (any order) *)
+Lemma marshal_decodes a x :
+  nfl_inv a -> nfl_is_marshal a x ->
+  exists m, decode_batch x ∅ = Some m /\ forall k e, a !! k = Some e -> In e (nfl_entries m).
+Proof.
+  intros Ia (es & -> & Hperm). exists (foldl ins ∅ es). split; [apply decode_batch_somes|].
+  intros k e He. apply in_nfl_entries. exists (skey e).
+  assert (Hin : In e es).
+  { eapply Permutation_in; [symmetry; exact Hperm|]. apply in_nfl_entries. eauto. }
+  destruct (foldl_ins_spec es ∅ (skey e)) as [[_ Hn]|(e' & He' & Hk & Hl)]; [exfalso; eapply Hn; eauto|].
+  assert (e' = e); [|subst; exact Hl].
+  eapply Permutation_in in He'; [|exact Hperm]. apply in_nfl_entries in He' as (k' & Hk').
+  pose proof (Ia _ _ Hk'). pose proof (Ia _ _ He). congruence.
+Qed.
+
+(* ---- the contract of Section Deleg, discharged ---- *)
+Lemma nfl_ge_refl s : nfl_ge s s.
+Proof. intros k e H. exists e. split; [exact H|lia]. Qed.
+
+Lemma nfl_ge_trans a b c : nfl_ge a b -> nfl_ge b c -> nfl_ge a c.
+Proof.
+  intros Hab Hbc k e H. destruct (Hbc k e H) as (e1 & H1 & L1). destruct (Hab k e1 H1) as (e2 & H2 & L2).
+  exists e2. split; [exact H2|lia].
+Qed.
+
+Lemma nfl_merge_nopanic now x s : mergeS nfl_ops now x s <> Panic.
+Proof. cbn. unfold nfl_mergeS. destruct (decode_batch x ∅); discriminate. Qed.
+
+Lemma nfl_merge_grow now x s s' : mergeS nfl_ops now x s = Ok s' -> nfl_ge s' s.
+Proof. cbn. unfold nfl_mergeS. destruct (decode_batch x ∅); [|discriminate]. intros [= <-]. apply mrun_ge. Qed.
+
+Lemma nfl_merge_inv now x s s' : mergeS nfl_ops now x s = Ok s' -> nfl_inv s -> nfl_inv s'.
+Proof. cbn. unfold nfl_mergeS. destruct (decode_batch x ∅); [|discriminate]. intros [= <-]. apply mrun_inv. Qed.
+
+Lemma nfl_merge_marshal now a b x :
+  nfl_inv a -> nfl_inv b -> nfl_is_marshal a x ->
+  exists b', mergeS nfl_ops now x b = Ok b' /\ nfl_ge b' (nfl_live now a).
+Proof.
+  intros Ia _ Hm. destruct (marshal_decodes a x Ia Hm) as (m & Hd & Hall).
+  cbn. unfold nfl_mergeS. rewrite Hd. eexists. split; [reflexivity|].
+  intros k e He. unfold nfl_live in He. apply map_filter_lookup_Some in He as [He Hlive]. cbn in Hlive.
+  destruct (mrun_covers now (nfl_entries m) b e (Hall _ _ He) Hlive) as (p & Hp & Hle).
+  rewrite (Ia _ _ He) in Hp. eauto.
+Qed.
+
+Lemma nfl_marshal_is s x : marshalS nfl_ops s = Some x -> nfl_is_marshal s x.
+Proof. cbn. unfold nfl_marshalS. intros [= <-]. exists (nfl_entries s). split; [reflexivity|apply Permutation_refl]. Qed.
+
+Lemma nfl_merge_err_stable now now' x s s' c :
+  mergeS nfl_ops now x s = Err c -> exists c', mergeS nfl_ops now' x s' = Err c'.
+Proof. cbn. unfold nfl_mergeS. destruct (decode_batch x ∅); [discriminate|]. eauto. Qed.
+
+Lemma nfl_merge_absorbed now now' x s s' s'' :
+  now <= now' -> mergeS nfl_ops now x s = Ok s' -> nfl_ge s'' s' -> mergeS nfl_ops now' x s'' = Ok s''.
+Proof.
+  intros Hle. cbn. unfold nfl_mergeS. destruct (decode_batch x ∅) as [m|]; [|discriminate].
+  intros [= <-] Hge. f_equal. apply mrun_noop. intros e He.
+  destruct (Z.lt_ge_cases (e_exp e) now') as [Hx|Hlive]; [left; exact Hx|right].
+  destruct (mrun_covers now (nfl_entries m) s e He ltac:(lia)) as (p & Hp & Hl).
+  destruct (Hge _ _ Hp) as (p' & Hp' & Hl'). exists p'. split; [exact Hp'|lia].
+Qed.
+
+(* ================= the contracts, bundled ================= *)
+
+(* protobuf-go: what was marshalled unmarshals to itself (checked by the harness on every run) *)
+Record wire_contract {B W} (wi : wire B W) : Prop := mkWireContract {
+  wc_part : forall k b w, wrap wi k b = Some w -> dec_part wi w = Some (k, b);
+  wc_full : forall ps w, wrap_full wi ps = Some w -> dec_full wi w = Some ps }.
+
+(* a registered state (cluster.State): a last-write-wins store with expiry *)
+Record state_contract {B ST} (ops : stateops B ST) (inv : ST -> Prop) (ge : ST -> ST -> Prop)
+       (live : Z -> ST -> ST) (is_marshal : ST -> B -> Prop) : Prop := mkStateContract {
+  sc_ge_refl : forall s, ge s s;
+  sc_ge_trans : forall a b c, ge a b -> ge b c -> ge a c;
+  sc_nopanic : forall now x s, mergeS ops now x s <> Panic;
+  sc_grow : forall now x s s', mergeS ops now x s = Ok s' -> ge s' s;
+  sc_inv : forall now x s s', mergeS ops now x s = Ok s' -> inv s -> inv s';
+  sc_marshal : forall now a b x, inv a -> inv b -> is_marshal a x ->
+                                 exists b', mergeS ops now x b = Ok b' /\ ge b' (live now a);
+  sc_marshal_is : forall s x, marshalS ops s = Some x -> is_marshal s x;
+  sc_err_stable : forall now now' x s s' c, mergeS ops now x s = Err c -> exists c', mergeS ops now' x s' = Err c';
+  sc_absorbed : forall now now' x s s' s'', now <= now' -> mergeS ops now x s = Ok s' -> ge s'' s' ->
+                                            mergeS ops now' x s'' = Ok s'' }.
+
+Theorem nfl_contract : state_contract nfl_ops nfl_inv nfl_ge nfl_live nfl_is_marshal.
+Proof.
+  constructor.
+  - exact nfl_ge_refl.
+  - exact nfl_ge_trans.
+  - exact nfl_merge_nopanic.
+  - exact nfl_merge_grow.
+  - exact nfl_merge_inv.
+  - exact nfl_merge_marshal.
+  - exact nfl_marshal_is.
+  - exact nfl_merge_err_stable.
+  - exact nfl_merge_absorbed.
+Qed.
+
+(* the contract is not vacuous in its key clause: for the notification log, "at least as new as the unexpired part"
+   is the C10 order *)
+Lemma nfl_ge_live_spec now (b a : nst) :
+  nfl_ge b (nfl_live now a) <->
+  forall k e, a !! k = Some e -> now <= e_exp e -> exists e', b !! k = Some e' /\ e_ts e <= e_ts e'.
+Proof.
+  unfold nfl_ge, nfl_live. split.
+  - intros H k e He Hl. apply H. apply map_filter_lookup_Some. split; [exact He|exact Hl].
+  - intros H k e He. apply map_filter_lookup_Some in He as [He Hl]. apply H; assumption.
+Qed.
